@@ -156,8 +156,24 @@ class C15(Prop):
         'CylcModel.C15.expand_sem',
         'CylcModel.C15.expand_wf',
         'CylcModel.C15.rhs_family',
+        'CylcModel.C15.nested_members',
+        'CylcModel.C15.nested_fam_all_sem',
+        'CylcModel.C15.nested_fam_any_sem',
     ]
-    statement_note = 'TODO'
+    statement_note = (
+        'full: for every family map, family, member list (any size incl. empty), offset, qualifier stem and '
+        'optional mark, FAM:<q>-all expands to an expression that is true iff every member has the member output '
+        'and FAM:<q>-any iff some member has it (finish = succeeded or failed) [fam_all_sem, fam_any_sem]; for '
+        'every left-hand expression tree (all mixtures with plain triggers, offsets, xtriggers, any size) the '
+        'recorded expressions mean the member-level reading of the tree and stay well-formed text [expand_sem, '
+        'expand_wf]; a family on the right gives every member the trigger and the declared optionality as family '
+        'default (an explicit declaration on a member itself takes precedence, as in the code) [rhs_family]; '
+        'members of nested families = tasks inheriting directly or indirectly, unbounded depth [nested_members, '
+        'nested_fam_*]; the qualifier tables and regex character classes of the source are regenerated on every '
+        'run and proved to be the seven qualifiers of the property [fam_trigger_table, alt_qualifiers_table, '
+        'fam_output_table, task_qualifiers_table, qualifier_constants, lexer_tables]. The statements hold for the '
+        'source with findings/C15-fix-1..4.diff applied; on the unfixed tree the table theorems do not build and '
+        'the judge reports concrete inputs')
     technique = 'structural induction over expression trees + generated-table decide + exhaustive/seeded correspondence'
     trusted = [
         'the text of a graph is produced from the structure by the harness renderer (white-space / comment '
@@ -173,7 +189,16 @@ class C15(Prop):
         'invalid nodes on any but the last line (accepted by the current code: C14, DESIGN section 8)',
         'C3 linearisation errors in [runtime] inheritance (only consistent hierarchies are generated)',
     ]
-    rule = ''
+    rule = (
+        'exhaustive box: 14 family qualifiers + bare/illegal ones x optional x family size 1-3 (names containing '
+        'each other) x offset x position (left alone, left in an OR, right, right with suicide mark, lone node, '
+        'middle of a chain), all alt/standard/custom qualifiers on a member next to a family trigger; then seeded '
+        'random graphs: 1-3 lines, chains of 1-3 elements, expression trees of depth <= 3 over families and plain '
+        'tasks from name pools with -+%@ and mutual substrings, offsets, xtriggers, four optionality styles, '
+        'ascending/descending tie order, 60 white-space/comment renderings, 20% through WorkflowConfig with a '
+        'generated [runtime] hierarchy (nested families, second parents), 2% with a junk character in a node; '
+        'non-trivial = involves a family node; classes = mode/outcome + set of branches (Lall Lany Lbare Lbadq '
+        'Lfin Loff Rfam Ropt Rsui lone mix cond nested), counted per distinct input')
     exhaustive = False
     workers = 16
 
@@ -215,7 +240,7 @@ class C15(Prop):
                     cfg.append(i)
                 else:
                     out[i] = self.impl(c)
-            if len(cfg) < 200:
+            if len(cfg) < 500:
                 for i in cfg:
                     out[i] = self.impl(inputs[i])
             else:
